@@ -13,7 +13,7 @@ import subprocess
 import tempfile
 from analysis import facts as facts_mod
 from .common import *  # noqa: F401,F403
-from .C03 import cx_census, census_walks
+from .C03 import CALLER_COORDS, cx_census, census_walks
 
 
 def P(n):
@@ -60,7 +60,14 @@ def check(cx):
                 continue
             n_eff += 1
             wg = [g for g in e.guards if g[0] == 'write']
-            r1.instance('%s: %s %s under %s' % (b, x['op'], show_term(x['place'])[:50], e.guards[-1][0] if e.guards else 'NO GUARD'))
+            if not wg and b in CALLER_COORDS:
+                # a helper read in its caller's coordinates: the guard is the one its (only) call site holds
+                cn, ca = CALLER_COORDS[b]
+                wc_ = cx.walk(cx.fn(cn), args=ca, key='callsite')
+                cs_ = [c_ for c_ in wc_.events if c_.kind == 'call' and c_.data.get('local') and c_.data['name'] == b]
+                if len(cs_) == 1:
+                    wg = [g for g in cs_[0].guards if g[0] == 'write']
+            r1.instance('%s: %s %s under %s' % (b, x['op'], show_term(x['place'])[:50], 'write' if wg else (e.guards[-1][0] if e.guards else 'NO GUARD')))
             if not wg:
                 r1.violation('%s|effect-without-write-guard|%s' % (b, x['op']), '%s changes shared state (%s %s) without holding the write guard'
                              % (b, x['op'], show_term(x['place'])[:60]), loc=cx.loc(e.node))
